@@ -38,6 +38,11 @@ def make_square(rng, n, kind):
         A = A * d[None, :]
     elif kind == 'int':
         A = np.array([[complex(rng.randint(-5, 5), rng.randint(-5, 5)) for _ in range(n)] for _ in range(n)], complex).reshape(n, n)
+    elif kind == 'leadblock' and n >= 3:
+        # a leading k x k block that is singular or nearly so while the whole matrix is well conditioned:
+        # elimination without a row exchange at step k-1 meets a zero / tiny pivot
+        k = rng.randint(2, n - 1)
+        A[k - 1, :k] = A[rng.randrange(k - 1), :k] * (1 + rng.choice([0, 0, 1e-9, 1e-6]))
     return A
 
 
@@ -89,7 +94,7 @@ def run(chk):
     TOL = 1e-10
     lines, cases = [], []
     for _ in range(N):
-        for kind in ('random', 'rowscaled', 'graded', 'colscaled', 'int', 'permuted'):
+        for kind in ('random', 'rowscaled', 'graded', 'colscaled', 'int', 'permuted', 'leadblock'):
             n = rng.randint(1, nmax)
             k = rng.randint(1, 3)
             A = make_square(rng, n, 'random' if kind == 'permuted' else kind)
@@ -131,7 +136,7 @@ def run(chk):
     lu_cases = []
     for _ in range(N):
         n = rng.randint(1, nmax)
-        A = make_square(rng, n, rng.choice(['random', 'rowscaled', 'int', 'graded']))
+        A = make_square(rng, n, rng.choice(['random', 'rowscaled', 'int', 'graded', 'leadblock']))
         lu_cases.append((len(lines), A))
         lines.append('num lu %d %s' % (n, flat(A)))
         cases.append(('lu', 'factors', A, None))
@@ -175,6 +180,24 @@ def run(chk):
         line = cout[idx]
         if op == 'lu':
             chk.distinct.add(('lu', idx))
+            # the pivot sequence is part of the contract of the model (C pivot rule): same permutation, factors equal to rounding
+            if mout is not None:
+                mw, cw = mout[idx].split(), line.split()
+                try:
+                    pm = mw[mw.index('P') + 1:mw.index('A')]
+                    pc = cw[cw.index('P') + 1:cw.index('A')]
+                    fm = np.array(vlib.hs2c(mw[mw.index('A') + 1:]), complex)
+                    fc = np.array(vlib.hs2c(cw[cw.index('A') + 1:]), complex)
+                    same = pm == pc and fm.shape == fc.shape and (fm.size == 0 or float(np.abs(fm - fc).max()) <= 1e-9 * max(1e-300, float(np.abs(fc).max())))
+                except ValueError:
+                    same = False
+                if not same:
+                    nmis += 1
+                    if nmis <= 3:
+                        broken.append('correspondence: _vnacommon_lu and the model choose different pivots / factors on\n  %s\n  C: %s\n  M: %s' % (
+                            lines[idx][:100], ' '.join(cw[3:4 + A.shape[0]]), ' '.join(mw[3:4 + A.shape[0]])))
+                else:
+                    chk.count('lu_model_same_pivots')
             continue
         if kind.startswith('singular'):
             w = line.split()
